@@ -70,6 +70,7 @@ def detect(d, props):
         rc, out = sh("patch -p1 -s --no-backup-if-mismatch -F3 < %s" % os.path.join(d, "patch.diff"), cwd="/repo")
         if rc != 0:
             sh(["git", "-C", "/repo", "checkout", "--", "."])
+            sh("find src -name '*.rej' -delete -o -name '*.orig' -delete", cwd="/repo")
             print(json.dumps({p: {"exit": None, "lines": [], "what": "patch does not apply to the current tree"} for p in props})); return
     res = {}
     try:
